@@ -22,6 +22,9 @@ ASSUMPTIONS = ["URL references and chardet/ad-hoc autodetection are outside the 
                "CR-only newlines are claimed for files only (a str containing lone CRs is not split by StringIO)"]
 
 HEAD_WORDS = ["Bohrloch", "Überdeckung", "Скважина", "Ölfeld", "température", "Ωmega", "ÉCOLE", "plain", "naïve café"]
+# characters at which str.splitlines() breaks but which are NOT line ends for a file, a StringIO or lasio's line scanner (interior
+# position: str.strip() would remove them at the ends of a field)
+EXOTIC_WORDS = ["left\x85right", "a\u2028b", "p\u2029q", "f\x0cg", "v\x0bw", "s\x1ct", "r\x1du", "q\x1ev"]
 
 
 def canon(las):
@@ -47,10 +50,12 @@ def cv(v):
     return ["s", str(v)]
 
 
-def gen_text(rng, ascii_only=False, latin1=False):
+def gen_text(rng, ascii_only=False, latin1=False, codec=None):
     words = [w for w in HEAD_WORDS if (not ascii_only or w.isascii())]
     if latin1:
         words = [w for w in words if _encodable(w, "latin-1")]
+    if codec is not None and rng.random() < 0.5:
+        words = words + [w for w in EXOTIC_WORDS if _encodable(w, codec)]
     w = lambda: rng.choice(words)
     n = rng.randint(1, 3)
     lines = ["~Version", "VERS. 2.0 : v", "WRAP. NO : w", "~Well", "STRT.M 1.0 : " + w(), "STOP.M %d.0 : s" % (n + 1), "STEP.M 1.0 : s",
@@ -73,8 +78,8 @@ def channels(run, tmp):
     encs = [("utf-8-sig", None), ("utf-8", "utf-8"), ("utf-16", "utf-16"), ("latin-1", "latin-1"), ("cp1252", "cp1252")]
     for n in range(run.budget(40, 600)):
         codec, arg = encs[n % len(encs)]
-        text = gen_text(run.rng, latin1=codec in ("latin-1", "cp1252"))
-        ref = canon(lasio.read(text))
+        text = gen_text(run.rng, latin1=codec in ("latin-1", "cp1252"), codec=codec)
+        ref = canon(lasio.read(io.StringIO(text)))
         for nl in ("\n", "\r\n", "\r"):
             path = os.path.join(tmp, "c%d.las" % n)
             with open(path, "w", encoding=codec, newline="") as f:
@@ -86,14 +91,43 @@ def channels(run, tmp):
                 with open(path, "r", encoding=codec) as f:
                     return lasio.read(f)
             deliveries.append(("file-object", via_fileobj))
+            def via_fileobj_positioned():
+                # a caller-supplied stream that has been peeked into: the result depends on the content, not on the position
+                with open(path, "r", encoding=codec) as f:
+                    f.readline()
+                    f.readline()
+                    return lasio.read(f)
+            deliveries.append(("file-object-after-readline", via_fileobj_positioned))
             if nl != "\r":
                 deliveries.append(("StringIO", lambda: lasio.read(io.StringIO(text.replace("\n", nl)))))
                 deliveries.append(("string", lambda: lasio.read(text.replace("\n", nl))))
+
+                def via_stringio_positioned(how):
+                    s_ = io.StringIO(text.replace("\n", nl))
+                    if how == "end":
+                        s_.read()
+                    elif how == "line":
+                        s_.readline()
+                    else:
+                        s_.read(4)
+                    return lasio.read(s_)
+                deliveries.append(("StringIO-at-end", lambda: via_stringio_positioned("end")))
+                deliveries.append(("StringIO-after-readline", lambda: via_stringio_positioned("line")))
+                deliveries.append(("StringIO-after-read4", lambda: via_stringio_positioned("read4")))
+
+                def via_written_buffer():
+                    # write() into a StringIO and read the same (un-rewound) buffer back: equal to reading its text
+                    buf = io.StringIO()
+                    lasio.read(io.StringIO(text)).write(buf, version=2.0)
+                    written = buf.getvalue()      # (read() closes the stream it is given)
+                    return canon(lasio.read(buf)) == canon(lasio.read(io.StringIO(written))) and lasio.read(io.StringIO(text))
+                deliveries.append(("StringIO-just-written", via_written_buffer))
             for name, fn in deliveries:
                 case = {"channel": name, "codec": codec, "newline": repr(nl), "text": text}
                 run.case(case, nontrivial=(not text.isascii()) or nl != "\n", tags=["channel=" + name, "codec=" + codec, "nl=" + repr(nl)])
                 try:
-                    got = canon(fn())
+                    res = fn()
+                    got = canon(res) if res is not False else "write-then-read of the same buffer differs from reading its text"
                 except Exception as e:
                     run.fail("channel-raises", case, {"exc": repr(e)})
                     continue
@@ -362,7 +396,7 @@ def replay(run, payload):
             with open(path, "w", encoding=codec, newline="") as f:
                 f.write(text.replace("\n", nl))
             kw = {} if codec == "utf-8-sig" else {"encoding": codec}
-            ref = canon(lasio.read(text))
+            ref = canon(lasio.read(io.StringIO(text)))
             if c["channel"] == "file-object":
                 with open(path, "r", encoding=codec) as f:
                     got = canon(lasio.read(f))
@@ -372,6 +406,25 @@ def replay(run, payload):
                 got = canon(lasio.read(path, **kw))
             elif c["channel"] == "StringIO":
                 got = canon(lasio.read(io.StringIO(text.replace("\n", nl))))
+            elif c["channel"] == "file-object-after-readline":
+                with open(path, "r", encoding=codec) as f:
+                    f.readline()
+                    f.readline()
+                    got = canon(lasio.read(f))
+            elif c["channel"].startswith("StringIO-a"):
+                s_ = io.StringIO(text.replace("\n", nl))
+                if c["channel"] == "StringIO-at-end":
+                    s_.read()
+                elif c["channel"] == "StringIO-after-readline":
+                    s_.readline()
+                else:
+                    s_.read(4)
+                got = canon(lasio.read(s_))
+            elif c["channel"] == "StringIO-just-written":
+                buf = io.StringIO()
+                lasio.read(io.StringIO(text)).write(buf, version=2.0)
+                written = buf.getvalue()
+                return canon(lasio.read(buf)) == canon(lasio.read(io.StringIO(written)))
             else:
                 got = canon(lasio.read(text.replace("\n", nl)))
             return got == ref
